@@ -28,21 +28,21 @@ theorem plainMatch_self (v : Val) (h : isScalar v = true) : plainMatch v (some v
   | arr _ => simp [isScalar] at h
   | _ => exact scalar_refl _ h
 
-/-- the four facts `plainEqualities` states about one entry -/
+/-- the three facts `plainEqualities` states about one entry -/
 theorem plainEq_entry {ss : Fields} (h : plainEqualities ss = true) {kv : String × Val} (hm : kv ∈ ss) :
-    kv.1 ≠ "" ∧ kv.1.toList.contains '.' = false ∧ kv.1.startsWith "$" = false ∧ isScalar kv.2 = true := by
+    kv.1.toList.contains '.' = false ∧ kv.1.startsWith "$" = false ∧ isScalar kv.2 = true := by
   have := List.all_eq_true.1 h kv hm
-  simp only [Bool.and_eq_true, Bool.not_eq_true', bne_iff_ne, ne_eq] at this
-  exact ⟨this.1.1.1, this.1.1.2, this.1.2, this.2⟩
+  simp only [Bool.and_eq_true, Bool.not_eq_true'] at this
+  exact ⟨this.1.1, this.1.2, this.2⟩
 
-theorem candsKey_plain (k : String) (fs : Fields) (hne : k ≠ "")
+/-- an undotted key (the empty one included) looks the field of that name up -/
+theorem candsKey_plain (k : String) (fs : Fields)
     (hd : k.toList.contains '.' = false) : candsKey k (.doc fs) = .ok [dget k fs] := by
-  have hs := splitDots_nodot k hd
-  have hok : keyOk k = true := by simp [keyOk, hs, hne]
-  rw [candsKey_of_keyOk _ hok, hs]
+  unfold candsKey
+  rw [splitDots_nodot k hd]
   rfl
 
-theorem applyHead_plain (k : String) (v : Val) (fs : Fields) (hne : k ≠ "")
+theorem applyHead_plain (k : String) (v : Val) (fs : Fields)
     (hd : k.toList.contains '.' = false) (hk : k.startsWith "$" = false) (hv : isScalar v = true)
     (hg : dget k fs = some v) : applyHead k v (.doc fs) = .ok true := by
   have n1 : k ≠ "$comment" := ne_of_not_dollar hk (by decide +kernel)
@@ -59,7 +59,7 @@ theorem applyHead_plain (k : String) (v : Val) (fs : Fields) (hne : k ≠ "")
       ne_of_not_dollar hk (by decide +kernel), ne_of_not_dollar hk (by decide +kernel)⟩
   unfold applyHead
   simp only [n1, n2, n3, n4, hk, if_false, Bool.false_eq_true]
-  rw [applyKey_plain_nondoc v k _ _ (scalar_not_doc v hv) (candsKey_plain k fs hne hd), hg]
+  rw [applyKey_plain_nondoc v k _ _ (scalar_not_doc v hv) (candsKey_plain k fs hd), hg]
   simp [plainMatch_self v hv]
 
 /-- **any document that holds the filter's pairs is matched** -/
@@ -70,11 +70,11 @@ theorem holds_matches (ss : Fields) (fs : Fields) (hk : plainEqualities ss = tru
   | nil => rfl
   | cons kv r ih =>
     obtain ⟨k, v⟩ := kv
-    obtain ⟨h1, h2, h3, h4⟩ := plainEq_entry hk (List.mem_cons_self ..)
+    obtain ⟨h2, h3, h4⟩ := plainEq_entry hk (List.mem_cons_self ..)
     have hk' : plainEqualities r = true := by
       simp only [plainEqualities, List.all_cons, Bool.and_eq_true] at hk ⊢
       exact hk.2
-    rw [applyFields_cons, applyHead_plain k v fs h1 h2 h3 h4 (hf (k, v) (List.mem_cons_self ..))]
+    rw [applyFields_cons, applyHead_plain k v fs h2 h3 h4 (hf (k, v) (List.mem_cons_self ..))]
     simp only [bind, Except.bind, if_true]
     exact ih hk' (fun kv hm => hf kv (List.mem_cons_of_mem _ hm))
 
